@@ -382,9 +382,15 @@ func (m *machine) checkQuery(rt *rapid.T, ss *sessState, p *poolQuery, mode stri
 		}
 		rt.Fatalf("re-executed query fails on the long-lived engine (%v), but succeeds on a fresh engine with the same data (%s)\n%s", res.Err, tres, describe())
 	}
+	if !tres.OK() {
+		// the fresh engine cannot evaluate the statement on this data (a planning / execution
+		// defect that has nothing to do with earlier state): no fresh evaluation to compare with
+		m.st.Class("fresh-engine-fails:undecided")
+		return
+	}
 	gotRows := mkGot(res.Schema, res.Rows)
 	got := gotVals(gotRows)
-	freshOK := tres.OK() && sameRows(got, fx.NormRows(tres.Schema, tres.Rows), p.ordered)
+	freshOK := sameRows(got, fx.NormRows(tres.Schema, tres.Rows), p.ordered)
 	refOK := false
 	if p.ordered {
 		refOK = refSeqEq(gotRows, want, p.approx)
@@ -398,10 +404,7 @@ func (m *machine) checkQuery(rt *rapid.T, ss *sessState, p *poolQuery, mode stri
 	case refOK:
 		m.st.Class("agrees-with-reference-only") // fresh engine deviates: plan choice, C01's subject
 	default:
-		fresh := tres.String()
-		if tres.OK() {
-			fresh = show(fx.NormRows(tres.Schema, tres.Rows), p.ordered)
-		}
+		fresh := show(fx.NormRows(tres.Schema, tres.Rows), p.ordered)
 		rt.Fatalf("stale result: the query does not reflect the data visible to the session\nresult:        %s\nfresh engine:  %s\nreference:     %s\n%s\nplan:\n%s",
 			show(got, p.ordered), fresh, show(want, p.ordered), describe(), ss.s.Plan(p.text))
 	}
